@@ -13,8 +13,10 @@ verdict) are z3 values flowing through the real code into the message fields; th
 AddUser minus RemoveUser, JoinRoom minus LeaveRoom, ...) compared with a reference computed from
 the settings.
 
-Sentences 2-4 of C16 (session loss, reconnect, stop() finality) are orderings of I/O events under
-fault positions with no data variable a solver could decide: they are outside this check.
+Sentences 2-4 of C16 (session loss, reset, reconnect, stop() finality) are checked by h_loss / h_reset
+(environment in engine/c16life.py) in the style of C06/C15: the data (reconnect.auto, the login
+verdicts, the server-sent values) is symbolic; the POSITION and KIND of the fault are enumerated
+injection points on the real code running on the virtual loop.  See the comment above h_loss.
 """
 from __future__ import annotations
 
@@ -36,7 +38,7 @@ from aioslsk.events import EventBus, SessionInitializedEvent
 from aioslsk.exceptions import InvalidSessionError, MessageDeserializationError
 from aioslsk.interest.manager import InterestManager
 from aioslsk.network.connection import (
-    CloseReason, ConnectionState, DataConnection, PeerConnection, PeerConnectionType)
+    CloseReason, ConnectionState, DataConnection, ListeningConnection, PeerConnection, PeerConnectionType)
 from aioslsk.network.network import Network
 from aioslsk.protocol.messages import (
     AddHatedInterest, AddInterest, AddUser, BranchLevel, BranchRoot, GetUserStatus, JoinRoom, Kicked, LeaveRoom,
@@ -46,6 +48,8 @@ from aioslsk.protocol.messages import (
 from aioslsk.protocol.primitives import PotentialParent, UserStats
 from aioslsk.room.manager import RoomManager
 from aioslsk.search.manager import SearchManager
+from aioslsk.server import ServerManager
+from aioslsk.tasks import BackgroundTask
 from aioslsk.settings import (
     CredentialsSettings, DebugSettings, InterestsSettings, ListeningSettings, NetworkSettings, RoomsSettings,
     Settings, SharedDirectorySettingEntry, SharesSettings, UsersSettings)
@@ -1002,8 +1006,11 @@ META = {
     'technique': 'symbolic execution of the real login path and of every real SessionInitialized handler on z3 Int/Bool '
                  'proxies stored in the real Settings / Login.Response / distributed parent; the frames the simulated '
                  'server received are folded into a server view and compared, per path, by z3 with a reference computed '
-                 'from the settings',
-    'explanation': 'Claimed: the FIRST sentence of C16 only. A real SoulSeekClient (all real managers, real EventBus, real '
+                 'from the settings. Sentences 2-4: the real start()/login()/disconnect()/watchdog/stop() code runs on the '
+                 'virtual loop over a simulated TCP layer with symbolic reconnect.auto / login verdicts / server-sent values; '
+                 'fault kind and fault position are ENUMERATED injection points (every loop step of the real login burst, '
+                 'pre-login, idle, while the watchdog waits, every loop step of the reconnect)',
+    'explanation': 'Sentence 1 (h_login): a real SoulSeekClient (all real managers, real EventBus, real '
                    'pydantic Settings) is constructed per path on a deterministic virtual loop; the real SoulSeekClient.login() '
                    'runs against a simulated server placed behind the real ServerConnection.send_message / '
                    'receive_message_object / reader loop, so Network, UserManager (+ the real tracking tasks), RoomManager, '
@@ -1016,9 +1023,21 @@ META = {
                    'session exists iff the login was accepted, and that execute() raises InvalidSessionError and sends nothing '
                    'exactly when there is no session. Membership of the candidate friends / interests / favourites is an '
                    'SBool materialised per path into the real settings sets (a finite shape). '
-                   'NOT claimed (sentences 2-4: session destroyed exactly once on loss, state reset, reconnect + re-login, '
-                   'stop() finality): these quantify over fault positions and schedules of I/O events only; no data '
-                   'variable decides them, so this technique has nothing to decide there.',
+                   'Sentences 2-4 (h_loss, h_reset; environment engine/c16life.py): the real client.start() (load_data, start of '
+                   'all services, Network.initialize with real ListeningConnection.connect / ServerConnection.connect), login(), '
+                   'DataConnection.disconnect / _read / _send error paths, Network.on_state_changed and the watchdog, every '
+                   'ConnectionStateChanged / SessionDestroyed listener and client.stop() run on the virtual loop; only '
+                   'asyncio.open_connection / start_server are replaced. reconnect.auto and both login verdicts are symbolic Bools '
+                   'the real code branches on (z3 decides `reconnect attempt <=> auto and unrequested loss` and `session <=> '
+                   'verdict of the latest login` per path); in h_reset the server-sent distributed parameters are symbolic '
+                   'uint32 delivered through the real handlers. What is NOT symbolic, and cannot be with this technique: the '
+                   'position of the fault (a flip before every loop step of the real login burst / of the reconnect, plus '
+                   'pre-login, idle, 0.2 s / 5 s into the watchdog wait), the kind of fault (disconnect(reason) for each of the 7 '
+                   'CloseReasons from another task, EOF / reset through the real read path, failing writes through the real '
+                   'write path, Network.disconnect_server(), client.stop()), the pending work (potential-parent connects, a '
+                   'search with a timeout) and the outcome of reconnect attempts: these are enumerated. The obligations about '
+                   'events, cleared state, open connections and pending tasks are therefore decided on concrete observations '
+                   'per enumerated point; only the reconnect / re-login / session clauses are solver-decided over data.',
     'functions': [SoulSeekClient.login, SoulSeekClient.execute, EventBus.emit, Network._on_session_initialized,
                   Network.advertise_listening_ports, Network.get_listening_ports, Network.create_listening_connections,
                   Network.send_server_messages, DataConnection.send_message, DataConnection.receive_message_object,
@@ -1032,7 +1051,22 @@ META = {
                   DistributedNetwork._on_session_initialized, DistributedNetwork._notify_server_of_parent,
                   DistributedNetwork._get_advertised_branch_values,
                   TransferManager._on_session_initialized, SearchManager._on_session_initialized,
-                  GetUserStatusCommand.send, JoinRoomCommand.send, PrivateMessageCommand.send],
+                  GetUserStatusCommand.send, JoinRoomCommand.send, PrivateMessageCommand.send,
+                  # sentences 2-4
+                  SoulSeekClient.start, SoulSeekClient.stop, SoulSeekClient.connect, SoulSeekClient._on_connection_state_changed,
+                  SoulSeekClient._on_server_reconnected, Network.initialize, Network.connect_listening_ports,
+                  Network.connect_server, Network.disconnect, Network.disconnect_server, Network._cancel_all_tasks,
+                  Network.on_state_changed, Network._on_server_connection_state_changed,
+                  Network._server_connection_watchdog_job, Network.create_peer_connection, Network._create_peer_connection_race,
+                  DataConnection.connect, DataConnection.disconnect, DataConnection._read, DataConnection._send,
+                  DataConnection.receive_message, ListeningConnection.connect, ListeningConnection.disconnect,
+                  BackgroundTask.start, BackgroundTask.cancel, BackgroundTask.runner,
+                  UserManager._on_state_changed, UserManager._on_session_destroyed, UserManager.reset_users, UserManager.stop,
+                  UserTrackingManager._on_state_changed, UserTrackingManager.stop, RoomManager._on_state_changed,
+                  RoomManager.reset_rooms, DistributedNetwork._on_state_changed, DistributedNetwork._reset_server_values,
+                  DistributedNetwork._on_session_destroyed, DistributedNetwork._on_potential_parents, DistributedNetwork.stop,
+                  SharesManager._on_session_destroyed, SearchManager._on_session_destroyed, SearchManager._on_state_changed,
+                  SearchManager.stop, SearchManager.search, ServerManager._on_state_changed, TransferManager.stop],
     'stubs': ['asyncio event loop -> engine.vloop.VLoop (virtual time); no sockets are opened: ServerConnection.state and '
               'ListeningConnection.state are assigned directly (CONNECTED / CLOSED / ...)',
               'symbolic exploration only: on the ServerConnection *instance* encode_message_data / decode_message_data / _send / '
@@ -1046,7 +1080,16 @@ META = {
               "jobs with shares='counts': SharesManager.get_stats on the instance -> (symbolic folder count, symbolic file count); "
               "jobs with shares='shapes'/'none' run the real get_stats over real SharedDirectory/SharedItem objects",
               'logging: the aioslsk logger is captured (EventBus.emit swallows listener exceptions into it); records are attached '
-              'to replays as notes'],
+              'to replays as notes',
+              'sentences 2-4: `asyncio` in the module globals of aioslsk.network.connection -> shim whose open_connection / '
+              'start_server are the simulated TCP layer engine.c16life.SimNet (everything else is the real asyncio). The server '
+              'end answers Login / AddUser; writer.close() feeds EOF to the reader one loop iteration later like a real '
+              'transport; connects to peers are established after 5 s unless cancelled; faults: feed_eof, set_exception, '
+              'write() raising ConnectionResetError',
+              'sentences 2-4, symbolic exploration only: encode_message_data / decode_message_data / _read_message replaced on the '
+              'ServerConnection instance (frame = message object); the real _send, _read, receive_message, reader loop run. '
+              'Replay: real codec over a real asyncio.StreamReader; prelude() requires identical event traces for both',
+              'sentences 2-4: settings network.upnp.enabled=False (the UPnP job would use real sockets), shares.scan_on_start=False'],
     'data_variables': ['listen_port, listen_obfuscated_port (Int 1..65535 when configured)',
                        'shared_folder_count, shared_file_count (Int 0..2^32-1)',
                        'parent_branch_level (Int 0..2^32-2)',
@@ -1054,27 +1097,45 @@ META = {
                        'login_accepted (Bool, the success field of the Login.Response)',
                        'reconnect_auto (Bool, network.server.reconnect.auto; must not influence the burst)',
                        'membership of each candidate friend (alice, bob, carol, own name) / liked and hated interest (jazz, rock, '
-                       'pop) / favourite room (r1..r3): Bool, materialised per path into the real settings sets'],
+                       'pop) / favourite room (r1..r3): Bool, materialised per path into the real settings sets',
+                       'sentences 2-4: reconnect_auto (Bool, un-materialised in the real Settings: the real code forks on it), '
+                       'login_accepted and relogin_accepted (Bool, success of the first / every later Login.Response)',
+                       'h_reset: parent_min_speed, parent_speed_ratio, min_parents_in_cache, parent_inactivity_timeout, '
+                       'distributed_alive_interval (Int 0..2^32-1, delivered through the real handlers; presence of each, of '
+                       'privileged users, room users, room list, an application-tracked user: Bool materialised per path)'],
     'discriminants': ['which listening ports are configured (none / clear / obfuscated / both)',
                       'state of each listening connection (CONNECTED, CLOSED; thorough also UNINITIALIZED, CONNECTING, CLOSING)',
                       'distributed parent at login time (none / parent with foreign branch root / parent whose root is ourselves)',
                       'kind of login reply (Login.Response / another message / undecodable frame)',
                       'server behaviour on AddUser (exists / does not exist / silent)',
                       '0..2 shared directories x 5 content shapes (0..3 files in 0..2 sub directories)',
-                      'command used to probe the session gate (GetUserStatus / JoinRoom / PrivateMessage)'],
+                      'command used to probe the session gate (GetUserStatus / JoinRoom / PrivateMessage)',
+                      'sentences 2-4 - ALL of these are enumerated injection points, not solver variables: kind of fault '
+                      '(disconnect(reason) x 7 close reasons, eof, reset, failing write, disconnect_server(), stop()); position of '
+                      'the fault (pre_login; before each of the ~56 loop steps of the real login burst; idle 1 s later; 0.2 s / 5 s '
+                      'into the watchdog wait after an unrequested loss; before each loop step of the reconnect + re-login); '
+                      'pending work (none / a potential-parent connect in flight / a search with a 30 s timeout); outcome of the '
+                      'first reconnect attempt (ok / refused once)'],
     'bounds': {'quick': {'candidate_names_per_set': '3 in the per-manager jobs, 1 (+ own name) in the all-symbolic jobs',
-                         'window_after_login_s': 2.0, 'shared_directories': '0..2'},
+                         'window_after_login_s': 2.0, 'shared_directories': '0..2',
+                         'life_cycle': 'fault at every loop step of the burst for 6 fault kinds + stop(); all 7 close reasons '
+                                       'pre-login and idle; stop() pre-login / burst / idle (3 kinds of pending work) / watchdog '
+                                       'wait / every step of the reconnect; observation: 3 s after the fault, 13 s for the '
+                                       'reconnect (+11 s when the first attempt is refused), 70 s after stop() returned'},
                'thorough': {'candidate_names_per_set': '3 in the per-manager jobs, 2 (+ own name) in the all-symbolic jobs',
-                            'window_after_login_s': 2.0, 'shared_directories': '0..2', 'listening_states': 5}},
-    'outside': ['C16 sentences 2-4: session destroyed exactly once on server loss, reset of users/rooms/tracking/distributed '
-                'parameters, reconnect watchdog and re-login, stop() finality (no open connection, no pending task) - pure I/O '
-                'event orderings under fault positions, nothing for a solver to decide',
-                'how the listening / server connections reach their state (sockets, bind errors, error_mode): C10',
+                            'window_after_login_s': 2.0, 'shared_directories': '0..2', 'listening_states': 5,
+                            'life_cycle': 'as quick, with every loop step of the burst for all 11 fault kinds, pending work '
+                                          'for every close reason, 11 fault kinds in h_reset'}},
+    'outside': ['how the listening / server connections reach their state in sentence 1 (sockets, bind errors, error_mode): C10',
                 'frames of other kinds (CheckPrivileges, Ping, ...) and the relative order of frames, except where the fold is '
                 'order sensitive (last value wins, add before remove)',
                 'retries of AddUser after the 2 s observation window (10 s / 600 s timers), settings changed during the burst',
                 'more candidate names than the bound; string contents of names (names are concrete strings)',
-                'write failures / loss of the server connection during the burst'],
+                'sentences 2-4: more than one fault per run (except unrequested loss + stop()); faults while transfers are in '
+                'progress (C03-C06 own the transfer tasks); peer connections other than potential-parent connects; UPnP; '
+                'the wishlist job; real sockets (partial writes, half-open connections, wait_closed that blocks); schedules '
+                'other than the FIFO order of the virtual loop (the fault position is enumerated, the order of ready '
+                'callbacks is not); settings changed at run time; anything later than 70 s after stop()'],
     'assumptions': ['asyncio Task/Future semantics of CPython 3.12', 'the optional tail of SetListenPort may be omitted, which '
                     'the server reads as amount 0 / port 0', 'the library watching its own user name is neither required nor forbidden'],
 }
